@@ -91,6 +91,23 @@ def run(ctx):
                             size=10 * len(frames))
 
 
+    # the message-level calls over a long stream of back-to-back frames: 1300 frames the call consumes on the way (pongs, answered
+    # pings), then two data frames; each is yielded as the independent decoder reads it, from its true start
+    long_sessions, long_meta = [], []
+    for c in (10, 9):
+        frames = [F(c, b"%d" % i, mask=(b"k%03d" % (i % 1000) if i % 7 == 0 else None)) for i in range(1300)] + \
+                 [F(2, b"\x00first\xff", form=16), F(1, b"second", mask=b"abcd")]
+        for api in ("rdf:0", "recvdata:0", "recv"):
+            long_sessions.append(({}, [("chunk", b"".join(f.enc() for f in frames))], [api] * 3))
+            long_meta.append((frames, api))
+    for (frames, api), (impl, model, ws, sock, line) in zip(long_meta, rx.run_sessions(ctx, "session:long-stream", long_sessions)):
+        outs = rx.results(impl)
+        ctx.case(key=line[:80] + api, nontrivial=True, cls=f"long-stream:ctl={frames[0].op}:api={api}")
+        want = {"rdf:0": ["R:2:1:", "R:1:1:"], "recvdata:0": ["D:2:", "D:1:"], "recv": ["B:", "T:"]}[api]
+        if not (outs[0].startswith(want[0]) and outs[1].startswith(want[1]) and outs[2] == "X:CLOSED"):
+            ctx.violate("frame-equals-rfc-decoding", "long-stream-frame-not-yielded", {"op": line[:200] + "...", "frames": f"1300 x op {frames[0].op}, binary, text", "api": api},
+                        want + ["X:CLOSED"], outs[:3], size=13000)
+
     # frames answered with PROTO: acceptable only if Spec.frameLegal rejects them both inside and outside a message
     lines = []
     for inp, d, f, n in legal_q:
